@@ -515,3 +515,85 @@ def threading(prog, res, rule, fam_re, member_sources, entry_keys, reach_require
                     "%s argument is `%s`" % (why, expr_str(a)) if ok else
                     "%s argument of %s is `%s`, not derived from the caller's own %s" % (why, call.get("fn"), expr_str(a), why))
     return nsites
+
+
+# ---------------------------------------------------------------------------
+# E7(c) per-iteration state: a flag tested inside a loop to decide a diagnostic must be
+# (re)assigned inside that loop on every path to the test
+# ---------------------------------------------------------------------------
+LOOPS = ("For", "While", "Do", "RangeFor")
+
+
+def inside(fn, node, anc):
+    if node is anc:
+        return True
+    for a in fn.ancestors(node):
+        if a is anc:
+            return True
+    return False
+
+
+def iteration_flags(fn, is_action, rule, res, counters=None):
+    """For every `if` whose condition reads a local scalar V and whose arms contain an action
+    (is_action(node) true), and every enclosing loop L in which V is also assigned:
+    some assignment to V located inside L must dominate the test.  Returns number of sites."""
+    cfg = fn.cfg
+    if cfg is None:
+        return 0
+    n_sites = 0
+    assigns = {}
+    for n in fn.walk():
+        if n["k"] in ("Assign", "CompoundAssign"):
+            lhs = strip(n["ch"][0])
+            if lhs["k"] == "Ref" and lhs.get("dk") == "local":
+                assigns.setdefault(lhs["d"], []).append(n)
+        elif n["k"] == "Unary" and ("++" in n["op"] or "--" in n["op"]):
+            lhs = strip(n["ch"][0])
+            if lhs["k"] == "Ref" and lhs.get("dk") == "local":
+                assigns.setdefault(lhs["d"], []).append(n)
+        elif n["k"] == "Var" and n.get("ch") and n["ch"] and n["ch"][0] is not None:
+            assigns.setdefault(n["d"], []).append(n)
+    for t in fn.walk():
+        if t["k"] != "If":
+            continue
+        arms = [a for a in t["ch"][1:] if a is not None]
+        if not any(is_action(x) for a in arms for x in walk(a)):
+            continue
+        cond = t["ch"][0]
+        vars_ = {}
+        for x in walk(cond):
+            if x["k"] == "Ref" and x.get("dk") == "local":
+                ty = fn.ty(x)
+                if ty in ("int", "bool", "_Bool", "unsigned int", "char", "short") :
+                    vars_[x["d"]] = x
+        if not vars_:
+            continue
+        loops = [a for a in fn.ancestors(t) if a["k"] in LOOPS]
+        if not loops:
+            continue
+        tpos = cfg.locate(cond)
+        for d, ref in vars_.items():
+            asg = assigns.get(d, [])
+            for L in loops:
+                inL = [a for a in asg if inside(fn, a, L)]
+                if not inL:
+                    continue      # V is loop-invariant in L: nothing carries over
+                # loop counters / induction variables assigned in the loop header are not flags
+                hdr = [c for c in (L.get("ch") or [])[:3] if c is not None] if L["k"] == "For" else []
+                if any(inside(fn, a, h) for a in inL for h in hdr):
+                    continue
+                n_sites += 1
+                dom = [a for a in inL if cfg.locate(a) is not None and cfg.dominates(cfg.locate(a), tpos)
+                       and not inside(fn, a, t)]
+                base = "%s|%s|%s|flag(%s)" % (rule, fn.relfile(), fn.name, d.split(":")[-1])
+                if counters is not None:
+                    c = counters.get(base, 0)
+                    counters[base] = c + 1
+                    if c:
+                        base = "%s#%d" % (base, c)
+                res.add(rule, base, fn.where(t), bool(dom),
+                        "`%s` is re-assigned in each iteration before it decides the diagnostic" % ref["n"] if dom else
+                        "`%s` decides a diagnostic inside a loop (line %s) that also modifies it, but no assignment inside "
+                        "that loop dominates the test: its value carries over from an earlier iteration" % (ref["n"], L["l"]))
+                break     # innermost modifying loop only
+    return n_sites
